@@ -3,7 +3,7 @@ R-FRESH / R-WORLD wiring of sa/props/Cxx.py; shared plumbing affects every check
 import re
 SCOPES = {
     "C01": ("aave", "uniswap", "squeeth", "deribit", "gmx", "core"), "C02": ("core", "uniswap", "deribit", "aave", "squeeth", "gmx", "data"),
-    "C03": ("aave", "uniswap", "squeeth", "deribit", "gmx"), "C04": ("aave", "uniswap", "squeeth", "deribit", "gmx"), "C05": ("core",),
+    "C03": ("aave", "uniswap", "squeeth", "deribit", "gmx"), "C04": ("aave", "uniswap", "squeeth", "deribit", "gmx"), "C05": ("core", "strategy"),
     "C06": ("uniswap",), "C07": ("uniswap",), "C08": ("uniswap", "core"), "C09": ("uniswap",), "C10": ("aave",), "C11": ("aave",),
     "C12": ("aave",), "C13": ("aave",), "C14": ("squeeth", "uniswap"), "C15": ("deribit",), "C16": ("deribit",), "C17": ("gmx",),
     "C18": ("strategy", "core"), "C19": None, "C20": ("result",),
